@@ -167,7 +167,7 @@ func (*Scanner).identifierType [C13, C03]
 func (*Scanner).identifier [C13, C03]
   safe
   requires J(s) && P(s)
-  modifies scanner.Scanner.cur, scanner.Scanner.column, scanner.Scanner.shouldIndent, scanner.Scanner.shouldCapitalize, parser.parser.errored
+  modifies scanner.Scanner.cur, scanner.Scanner.column, scanner.Scanner.shouldIndent, scanner.Scanner.shouldCapitalize, parser.parser.errored, g:$deliveredErr
   ensures J(s) && P(s) && s.cur >= old(s.cur) && s.start == old(s.start)
   ensures result.Literal == stringOf(subslice(s.src, s.start, s.cur))
   ensures result.Type == (token.kw(result.Literal) != token.IDENTIFIER ? token.kw(result.Literal) : token.kw(strings.ToLower(result.Literal)))
@@ -183,7 +183,7 @@ spec escapeOK(r int, quote int) bool := r == 97 || r == 98 || r == 110 || r == 1
 func (*Scanner).scanEscape [C13, C19, C03]
   safe
   requires J(s) && P(s) && s.cur < len(s.src) && curRune(s) == 92 && (quote == 34 || quote == 39)
-  modifies scanner.Scanner.cur, scanner.Scanner.column, scanner.Scanner.shouldIndent, parser.parser.errored
+  modifies scanner.Scanner.cur, scanner.Scanner.column, scanner.Scanner.shouldIndent, parser.parser.errored, g:$deliveredErr
   ensures J(s) && P(s) && s.cur >= old(s.cur) && s.cur < len(s.src) && curRune(s) != 10 && s.start == old(s.start)
   ensures result ==> s.cur == old(s.cur) + 1
   ensures !result ==> s.cur == old(s.cur)
@@ -194,7 +194,7 @@ func (*Scanner).scanEscape [C13, C19, C03]
 func (*Scanner).string [C13, C19, C03]
   safe
   requires J(s) && P(s)
-  modifies scanner.Scanner.cur, scanner.Scanner.column, scanner.Scanner.line, scanner.Scanner.indent, scanner.Scanner.shouldIndent, scanner.Scanner.shouldCapitalize, parser.parser.errored
+  modifies scanner.Scanner.cur, scanner.Scanner.column, scanner.Scanner.line, scanner.Scanner.indent, scanner.Scanner.shouldIndent, scanner.Scanner.shouldCapitalize, parser.parser.errored, g:$deliveredErr
   ensures J(s) && P(s) && s.cur >= old(s.cur) && s.start == old(s.start)
   ensures result.Type == token.STRING || result.Type == token.ILLEGAL
   // a text literal ends behind its closing quote; an unterminated one is ILLEGAL and consumes the rest of the input
@@ -208,7 +208,7 @@ func (*Scanner).string [C13, C19, C03]
 func (*Scanner).char [C13, C19, C03]
   safe
   requires J(s) && P(s)
-  modifies scanner.Scanner.cur, scanner.Scanner.column, scanner.Scanner.line, scanner.Scanner.indent, scanner.Scanner.shouldIndent, scanner.Scanner.shouldCapitalize, parser.parser.errored
+  modifies scanner.Scanner.cur, scanner.Scanner.column, scanner.Scanner.line, scanner.Scanner.indent, scanner.Scanner.shouldIndent, scanner.Scanner.shouldCapitalize, parser.parser.errored, g:$deliveredErr
   ensures J(s) && P(s) && s.cur >= old(s.cur) && s.start == old(s.start)
   ensures result.Type == token.CHAR || result.Type == token.ILLEGAL
   ensures result.Type == token.CHAR ==> s.cur > old(s.cur) && result.Literal == stringOf(subslice(s.src, s.start, s.cur))
@@ -221,7 +221,7 @@ func (*Scanner).char [C13, C19, C03]
 func (*Scanner).aliasParameter [C13, C03]
   safe
   requires J(s) && P(s)
-  modifies scanner.Scanner.cur, scanner.Scanner.column, scanner.Scanner.line, scanner.Scanner.indent, scanner.Scanner.shouldIndent, scanner.Scanner.shouldCapitalize, parser.parser.errored
+  modifies scanner.Scanner.cur, scanner.Scanner.column, scanner.Scanner.line, scanner.Scanner.indent, scanner.Scanner.shouldIndent, scanner.Scanner.shouldCapitalize, parser.parser.errored, g:$deliveredErr
   ensures J(s) && s.cur >= old(s.cur) && s.start == old(s.start)
   ensures result.Type == token.ALIAS_PARAMETER
   ensures result.Literal == stringOf(subslice(s.src, s.start, s.cur))
